@@ -1,1 +1,175 @@
-From GV Require Import Pool.Model Pool.Observe Pool.Monitors.
+From GV Require Import Pool.Model Pool.Observe Pool.Monitors Pool.Inv Pool.Reduce Pool.LegalRun
+                       Pool.C07Refresh Pool.C07Frames Pool.C07Check Pool.InvC07.
+
+(* C07: an unresponsive connection is refreshed exactly by rule (enough calls hit a
+   client-side deadline since the last response, the last response is older than
+   the back-off window, no refresh in flight), gracefully (the old connection keeps
+   serving until the replacement is READY; a failed creation disables nothing) and
+   once (one replacement per channel, one removal at the swap).
+   For every harness-legal history (no operation answered RBadOp) and every
+   map-iteration oracle.  Two further guards, both forced (counterexamples below):
+     - at most 2^32 - 2 operations (no deCalls counter wraps; the state form of the
+       guard is C07_holds_states),
+     - no call waiting on a channel returns in the event that swaps that channel's
+       connection (the monitor compares the channel's stream count across the swap). *)
+Theorem C07_holds : forall raw ops,
+  legal raw ops -> (Z.of_nat (length ops) <= 4294967294)%Z -> no_unblock_at_swap raw ops ->
+  monitor P07 raw (observe init_bal) (run raw init_bal ops) = true.
+Proof. exact C07_holds_proof. Qed.
+Print Assumptions C07_holds.
+
+(* the same with the first guard in its weakest form: deCalls + 1 < 2^32 in every state *)
+Theorem C07_holds_no_wrap : forall raw ops,
+  legal raw ops -> Forall de_ok (run_states raw init_bal ops) -> no_unblock_at_swap raw ops ->
+  monitor P07 raw (observe init_bal) (run raw init_bal ops) = true.
+Proof. exact C07_holds_states. Qed.
+Print Assumptions C07_holds_no_wrap.
+
+(* state-level theorems (InvC07.v) *)
+Print Assumptions refresh_iff.
+Print Assumptions one_replacement.
+Print Assumptions one_replacement_done.
+Print Assumptions old_serves_until_swap.
+Print Assumptions swap_takes_over.
+Print Assumptions disabled_never_refreshes.
+Print Assumptions only_done_refreshes.
+Print Assumptions factory_failure_does_not_disable.
+
+(* non-vacuity: a call hits its client-side deadline after the window -> one
+   replacement (connection 1) is created; the old connection 0 keeps serving; a
+   non-READY report of the replacement changes nothing; when it is READY the old
+   connection is removed and the channel (with its stream count) moves to it *)
+Example c07_history :
+  let raw := Some (mkConfig 1 4 100 false 10 1 false []) in
+  let ops := [(OpResolver 1 CfgVal, []); (OpConnState 0 Ready, []);
+              (OpPick 0 0 false [] (Some 5%Z) false, []); (OpAdvance 20000001, []);
+              (OpDone 0 DDeadlineClient [], []);
+              (OpPick 0 0 false [] None false, []);
+              (OpConnState 1 Connecting, []);
+              (OpConnState 1 Ready, []);
+              (OpPick 0 0 false [] None false, []); (OpDone 1 DOk [], []); (OpDone 2 DOk [], [])] in
+  map ev_ret (run raw init_bal ops) =
+    [RNone; RNone; RPicked 0; RNone; RNone; RPicked 0; RNone; RNone; RPicked 1; RNone; RNone] /\
+  map ev_out (run raw init_bal ops) =
+    [[ONewSC 0 1; OConnect 0; OUpdAddr 0 1; OConnect 0]; [OUpdateState Ready (PSnap [0%nat])]; []; [];
+     [ONewSC 1 1; OConnect 1]; []; []; [ORemove 0]; []; []; []] /\
+  map (fun s => (map sl_conn (b_slots s), map sl_streams (b_slots s), map sl_refreshing (b_slots s), b_refr s))
+      (skipn 4 (run_states raw init_bal ops)) =
+    [([0%N], [1%Z], [false], []); ([0%N], [0%Z], [true], [(1%N, 0%nat)]); ([0%N], [1%Z], [true], [(1%N, 0%nat)]);
+     ([0%N], [1%Z], [true], [(1%N, 0%nat)]); ([1%N], [1%Z], [false], []); ([1%N], [2%Z], [false], []);
+     ([1%N], [1%Z], [false], []); ([1%N], [0%Z], [false], [])] /\
+  monitor P07 raw (observe init_bal) (run raw init_bal ops) = true.
+Proof. vm_compute. repeat split; reflexivity. Qed.
+
+(* ... and it satisfies the hypotheses of C07_holds *)
+Example c07_history_guards :
+  let raw := Some (mkConfig 1 4 100 false 10 1 false []) in
+  let ops := [(OpResolver 1 CfgVal, []); (OpConnState 0 Ready, []);
+              (OpPick 0 0 false [] (Some 5%Z) false, []); (OpAdvance 20000001, []);
+              (OpDone 0 DDeadlineClient [], []);
+              (OpPick 0 0 false [] None false, []);
+              (OpConnState 1 Connecting, []);
+              (OpConnState 1 Ready, []);
+              (OpPick 0 0 false [] None false, []); (OpDone 1 DOk [], []); (OpDone 2 DOk [], [])] in
+  legal raw ops /\ no_unblock_at_swap raw ops.
+Proof.
+  unfold legal, no_unblock_at_swap. vm_compute.
+  split; repeat constructor; try discriminate; intros _ j [].
+Qed.
+
+(* a failed creation: no replacement registered, the channel is not marked, and the
+   next timed-out call tries again and succeeds *)
+Example c07_factory_failure_history :
+  let raw := Some (mkConfig 1 4 100 false 10 1 false []) in
+  let ops := [(OpResolver 1 CfgVal, []); (OpConnState 0 Ready, []);
+              (OpPick 0 0 false [] (Some 5%Z) false, []); (OpPick 0 0 false [] (Some 5%Z) false, []);
+              (OpAdvance 20000001, []); (OpFactory true, []);
+              (OpDone 0 DDeadlineClient [], []); (OpFactory false, []);
+              (OpDone 1 DDeadlineClient [], [])] in
+  map ev_out (run raw init_bal ops) =
+    [[ONewSC 0 1; OConnect 0; OUpdAddr 0 1; OConnect 0]; [OUpdateState Ready (PSnap [0%nat])]; []; []; []; [];
+     [ONewSCFail 1]; []; [ONewSC 1 1; OConnect 1]] /\
+  map (fun s => (map sl_refreshing (b_slots s), map sl_de (b_slots s), b_refr s)) (skipn 6 (run_states raw init_bal ops)) =
+    [([false], [0%Z], []); ([false], [1%Z], []); ([false], [1%Z], []); ([true], [2%Z], [(1%N, 0%nat)])] /\
+  monitor P07 raw (observe init_bal) (run raw init_bal ops) = true.
+Proof. vm_compute. repeat split; reflexivity. Qed.
+
+(* hand-made bad traces: model runs with one event altered *)
+
+(* a second replacement while a refresh is in flight *)
+Example c07_bad_second_replacement :
+  let raw := Some (mkConfig 1 4 100 false 10 1 false []) in
+  let ops := [(OpResolver 1 CfgVal, []); (OpConnState 0 Ready, []);
+              (OpPick 0 0 false [] (Some 5%Z) false, []); (OpAdvance 20000001, []);
+              (OpDone 0 DDeadlineClient [], []);
+              (OpPick 0 0 false [] (Some 5%Z) false, []);
+              (OpDone 1 DDeadlineClient [], [])] in
+  monitor P07 raw (observe init_bal) (run raw init_bal ops) = true /\
+  monitor P07 raw (observe init_bal)
+    (upd_nth 6 (ev_with_out [ONewSC 2 1; OConnect 2]) (run raw init_bal ops)) = false.
+Proof. vm_compute. split; reflexivity. Qed.
+
+(* a refresh although the last response is not older than the window *)
+Example c07_bad_refresh_too_early :
+  let raw := Some (mkConfig 1 4 100 false 10 1 false []) in
+  let ops := [(OpResolver 1 CfgVal, []); (OpConnState 0 Ready, []);
+              (OpPick 0 0 false [] (Some 5%Z) false, []); (OpAdvance 10, []);
+              (OpDone 0 DDeadlineClient [], [])] in
+  map ev_out (run raw init_bal ops) =
+    [[ONewSC 0 1; OConnect 0; OUpdAddr 0 1; OConnect 0]; [OUpdateState Ready (PSnap [0%nat])]; []; []; []] /\
+  monitor P07 raw (observe init_bal) (run raw init_bal ops) = true /\
+  monitor P07 raw (observe init_bal)
+    (upd_nth 4 (ev_with_out [ONewSC 1 1; OConnect 1]) (run raw init_bal ops)) = false.
+Proof. vm_compute. repeat split; reflexivity. Qed.
+
+(* the swap loses the stream count of the channel *)
+Example c07_bad_swap_loses_streams :
+  let raw := Some (mkConfig 1 4 100 false 10 1 false []) in
+  let ops := [(OpResolver 1 CfgVal, []); (OpConnState 0 Ready, []);
+              (OpPick 0 0 false [] (Some 5%Z) false, []); (OpAdvance 20000001, []);
+              (OpDone 0 DDeadlineClient [], []);
+              (OpPick 0 0 false [] None false, []);
+              (OpConnState 1 Connecting, []);
+              (OpConnState 1 Ready, [])] in
+  monitor P07 raw (observe init_bal) (run raw init_bal ops) = true /\
+  monitor P07 raw (observe init_bal)
+    (upd_nth 7 (ev_with_slots (map (fun sl => sl_set_streams sl 0))) (run raw init_bal ops)) = false.
+Proof. vm_compute. split; reflexivity. Qed.
+
+(* the two guards are forced: legal model histories / steps the monitor rejects *)
+
+(* a round-robin BIND call waits on the channel being refreshed and returns in the swap event *)
+Example c07_guard_swap_forced :
+  let raw := Some (mkConfig 1 4 100 false 10 1 true [(1%N, mkMcfg BIND true)]) in
+  let ops := [(OpResolver 1 CfgVal, []); (OpConnState 0 Ready, []);
+              (OpPick 0 0 false [] (Some 5%Z) false, []); (OpAdvance 20000001, []);
+              (OpDone 0 DDeadlineClient [], []);
+              (OpConnState 0 Connecting, []);
+              (OpPick 0 1 true [] None false, []);
+              (OpConnState 1 Ready, [])] in
+  map ev_ret (run raw init_bal ops) = [RNone; RNone; RPicked 0; RNone; RNone; RNone; RBlocked; RNone] /\
+  map ev_ub (run raw init_bal ops) = [[]; []; []; []; []; []; []; [(1%nat, 1%N)]] /\
+  monitor P07 raw (observe init_bal) (run raw init_bal ops) = false.
+Proof. exact swap_unblock_counterexample. Qed.
+
+(* deCalls at 2^32 - 1 (state reached by a legal prefix, only that counter altered) *)
+Example c07_guard_no_wrap_forced :
+  let step de := run wrap_raw (wrap_state de) [(OpDone 0 DDeadlineClient [], [])] in
+  wrap_state 0 = run_state wrap_raw init_bal wrap_prefix /\
+  map sl_de (b_slots (wrap_state 4294967295)) = [4294967295%Z] /\
+  map ev_ret (step 4294967294%Z) = [RNone] /\ map ev_out (step 4294967294%Z) = [[ONewSC 1 1; OConnect 1]] /\
+  mon_from P07 wrap_raw wrap_ms (observe (wrap_state 4294967294)) (step 4294967294%Z) = true /\
+  map ev_ret (step 4294967295%Z) = [RNone] /\ map ev_out (step 4294967295%Z) = [[]] /\
+  mon_from P07 wrap_raw wrap_ms (observe (wrap_state 4294967295)) (step 4294967295%Z) = false.
+Proof. exact de_wrap_counterexample. Qed.
+
+(* known finding R2: outside window_in_range the uint32 window wraps (50 min, 11 refreshes) *)
+Example c07_window_wrap :
+  let c := mkConfig 1 4 100 false 3000000 1 false [] in
+  let s := set_cfg init_bal (Some c) in
+  let r := mkSlot 0 0 0 0 0 false 11 in
+  window_in_range c (sl_rcnt r) = false /\
+  (2 ^ sl_rcnt r * c_ums c >= W32)%Z /\
+  unresponsiveWindow s r = 1849032704000000%Z /\ window_ns c (sl_rcnt r) = 6144000000000000%Z /\
+  unresponsiveWindow s r <> window_ns c (sl_rcnt r).
+Proof. exact window_wrap_refuted. Qed.
